@@ -434,7 +434,9 @@ def _samples(rnd, kind, w, h, style):
         a, s = rnd.randrange(256), rnd.choice([1, 3, 7, 17, 85])
         return bytes((a + i * s) & 255 for i in range(n))
     if style == 2:  # each row constant, rows different
-        return b"".join(bytes([rnd.randrange(256)]) * rb for _ in range(h))
+        # (runs of the byte values that are lengths / markers in the run-length, LZW and ASCII encodings)
+        return b"".join(bytes([rnd.choice([rnd.randrange(256), rnd.randrange(256), 0x80, 0x80, 0x7F, 0x81, 0xFF, 0x00])]) * rb
+                        for _ in range(h))
     d = bytearray(n)  # sparse
     for _ in range(1 + n // 8):
         d[rnd.randrange(n)] = rnd.choice([1, 255, 0x80, 0x45, 0x49, 10, 13])
@@ -782,8 +784,8 @@ def inline_cases(draw):
 # --------------------------------------------------------------------------
 def plan(tier):
     q = tier == "quick"
-    specs = [{"kind": "export", "n": 300 if q else 6000} for _ in range(10)]
-    specs += [{"kind": "inline", "n": 300 if q else 6000} for _ in range(6)]
+    specs = [{"kind": "export", "n": 500 if q else 6000} for _ in range(10)]
+    specs += [{"kind": "inline", "n": 500 if q else 6000} for _ in range(6)]
     return specs
 
 
